@@ -151,7 +151,7 @@ def run_case(case, ctx):
     spec, fh, off = case["spec"], case["fh"], case["off"]
     rng = np.random.default_rng([case["dseed"], 1010])
     need = case["n0"] + sum(op[1] for op in case["ops"] if op[0] in ("update", "update_predict", "ups")) + 4
-    base = zoo.make_series(rng, need, positive=True, off=off, kind=case["series"])
+    base = zoo.make_series(rng, need, positive=True, off=off, kind=case["series"], integer=case["dseed"] % 5 == 0)
     vals = dict(zip([int(t) for t in base.index], [float(v) for v in base.values]))
     need_fit = zoo.requires_fh_in_fit(spec)
     fh_in = "fit" if need_fit else case["fh_in"]
